@@ -163,6 +163,7 @@ func (x *Exec) execInstr(fr *Frame, st *State, instr ssa.Instruction) {
 		k := x.operand(fr, st, t.Key)
 		v := x.operand(fr, st, t.Value)
 		x.safetyOblige(fr, st, "nilmap", instr, "", nonNilTerm(m))
+		x.siteClausesNamed(fr, nil, st, "mapupdate", instr, []Val{m, k, v})
 		x.mapStore(st, m, k, v)
 	case *ssa.Range:
 		fr.vals[t] = Val{T: t.Type(), L: []string{x.smt.Fresh("iter", SOpq)}}
@@ -321,6 +322,12 @@ func (x *Exec) doUnOp(fr *Frame, st *State, t *ssa.UnOp) Val {
 	case token.MUL:
 		x.safetyOblige(fr, st, "nil", t, "", nonNilTerm(v))
 		r := x.loadVal(st, v, t.Type())
+		if g, ok := t.X.(*ssa.Global); ok && g.Pkg != nil && libraryNonNil[g.Pkg.Pkg.Path()+"."+g.Name()] && len(r.L) == 1 && isRefType(r.T) {
+			// assumed (listed in the evidence): these standard library variables are set to a non-nil
+			// pointer by their package and are not reassigned
+			x.trusted["assumed:non-nil library variable "+g.Pkg.Pkg.Path()+"."+g.Name()] = true
+			x.smt.Assert(not(eq(r.L[0], "#x00000000")))
+		}
 		return x.recallStatic(fr, v, r)
 	case token.NOT:
 		return Val{T: t.Type(), L: []string{not(v.L[0])}}
@@ -803,4 +810,10 @@ func foldSub64(a, b string) string {
 		}
 	}
 	return app("bvsub", a, b)
+}
+
+// standard library package variables that hold a non-nil pointer (set once by their package)
+var libraryNonNil = map[string]bool{
+	"encoding/base64.StdEncoding": true, "encoding/base64.URLEncoding": true,
+	"encoding/base64.RawStdEncoding": true, "encoding/base64.RawURLEncoding": true,
 }
